@@ -23,7 +23,8 @@ Record kraw := {
   k_len : N;
   k_env : bool;                 (* envelope decodes *)
   k_pk : N;                     (* address id of the claimed signer *)
-  k_sigvalid : bool;            (* real verifier: valid under tx context + this chain *)
+  k_black : bool;               (* the claimed public key is blacklisted (signature.go:98) *)
+  k_sigvalid : bool;            (* Ed25519 over SHA-512/256(tx context for this chain || blob) verifies *)
   k_tx : option ktx             (* blob decodes *)
 }.
 
@@ -34,7 +35,8 @@ Record kparams := {
   p_gas_byte : N;               (* consensus GasOpTxByte *)
   p_gas_transfer : N;
   p_gas_burn : N;
-  p_min_gas_price : N
+  p_min_gas_price : N;
+  p_reserved : list N           (* address ids that are reserved (staking/api/address.go:80) *)
 }.
 
 Definition bal (l : list (N * N)) (a : N) : N := match aget a l with Some b => b | None => 0 end.
@@ -50,7 +52,7 @@ Definition enc_tx (len : N) (t : ktx) : bytes :=
 Definition k_dec_env (r : kraw) : option envelope :=
   if k_env r then
     Some {| e_blob := match k_tx r with Some t => enc_tx (k_len r) t | None => [] end;
-            e_pk := [k_pk r];
+            e_pk := [k_pk r; if k_black r then 1 else 0];
             e_sig := (if k_sigvalid r then 1 else 0) :: repeat 0 63 |}
   else None.
 
@@ -86,6 +88,7 @@ Definition k_exec (P : kparams) (l : list (N * N)) (pk : bytes) (t : tx) : list 
         if from =? to then
           if bal l from <? amt then (l, false) else (l, true)          (* :102-113 *)
         else
+          if existsb (N.eqb to) (p_reserved P) then (l, false) else    (* :118 state.Account(reserved) fails *)
           if bal l from <? amt then (l, false) else                    (* :122 quantity.Move *)
           if bal l from - amt <? p_min_transact P then (l, false) else (* :133 *)
           if bal l to + amt <? p_min_transact P then (l, false) else   (* :141 *)
@@ -107,9 +110,9 @@ Definition kcfg (P : kparams) (SEPc : bytes) (txctx : ctx_spec) (chainc : bytes)
      dec_tx := k_dec_tx;
      hashf := fun b => b;
      sig_ok := k_sig_ok;
-     blacklisted := fun _ => false;
+     blacklisted := fun pk => nth 1 pk 0 =? 1;
      addr_of := fun pk => hd 0 pk;
-     reserved := fun _ => false;
+     reserved := fun a => existsb (N.eqb a) (p_reserved P);
      is_system := fun m => hd 0 m =? 1;
      has_app := fun m => (hd 0 m =? 3) || (hd 0 m =? 4);
      is_critical := fun _ => false;
